@@ -49,6 +49,7 @@ func c13(c *Ctx) {
 		"(info) KeysetInfo/KeyInfo literals are filled only from type URL, status, key ID and prefix type, String() prints only KeysetInfo(). " +
 		"(label) hasSecrets trusts the KeyMaterialType label, so every registered key parser, folded with the label bound to each constant, must be able to succeed for exactly one label, and the generic ParseKey may fall back to an opaque key only when no parser is registered. " +
 		"(pubtype) a key.Key component stored into a …PublicKey object was type-tested against a …PublicKey type on every path (a private key shares its public key's parameters). " +
+		"(writeronly) the bytes a keyset writer hands to its io.Writer are the Marshal result of the message of that call alone (MarshalAppend only onto a provably empty slice). " +
 		"secretdata's copy-in/copy-out is decided under C19. Not decided: confidentiality of the caller's AEAD."
 	hs := p.PkgFunc("keyset", "hasSecrets")
 	if hs == nil {
@@ -63,6 +64,7 @@ func c13(c *Ctx) {
 	c13Label(c)
 	c13PubType(c)
 	c13Relabel(c)
+	c13WriterOnly(c)
 }
 
 // ---------------------------------------------------------------- classify
